@@ -34,6 +34,20 @@ let handle (toks : string list) : string =
       let spec = if op = "isnull" then is_null v else is_not_null v in
       if res = b01 spec then "ok nt"
       else Printf.sprintf "chk %s_%s impl=%s spec=%s" op ctx res (b01 spec)
+  | ["K"; ctx; form; px; x; py; p; res] ->
+      let p' = bytes_of_hex p in
+      let lk = (px = "P") && like p' (bytes_of_hex x) in
+      let ynull = (py <> "P") and xnull = (px <> "P") in
+      let spec = (match form with
+        | "like_and_notnull" -> lk && not ynull
+        | "like_or_null" | "null_or_like" -> lk || ynull
+        | "notnull_and_like_same" -> (not xnull) && lk
+        | _ -> failwith "bad form") in
+      (* CASE over a missing column yields NULL instead of a branch: that is C06's recorded finding
+         (CASE/NULL rule), not a LIKE / IS NULL question, so such a case is not judged here *)
+      if ctx = "case" && res = "n" && (px = "A" || py = "A") then "ok"
+      else if res = b01 spec then "ok nt"
+      else Printf.sprintf "chk combined_%s_%s impl=%s spec=%s" form ctx res (b01 spec)
   | _ -> "bad line"
 
 let () = Registry.register "C13" handle
